@@ -127,9 +127,16 @@ package generator
 // writeAttributeCSS replaces the expression of a class attribute by one it makes up (no source range); the
 // rewritten attribute is then written by writeExpressionAttributeValueDefault, which therefore has to cope with
 // expressions that do not come from the parser.
+// what writeAttributeCSS hands back is entered into the source map later (through the attribute list), so the
+// expression it makes up has no source range - or, if it ever has one, carries the text of that range
+//@ func (*generator) writeAttributeCSS [C07, C16]
+//@   usemethods
+//@   ensures {C07} implies(ok, len(result.Expression.Value) == 0 || result.Expression.Range.To.Index <= result.Expression.Range.From.Index || uf("srcText", result.Expression.Range.From.Index, result.Expression.Range.To.Index) == result.Expression.Value)
 //@ func (*generator) writeExpressionAttributeValueDefault [C07, C16]
 //@   usemethods
 //@   noinv attr
+// ... but an expression that does carry a source range carries the text of that range (it came from the parser)
+//@   requires {C07} len(attr.Expression.Value) == 0 || attr.Expression.Range.To.Index <= attr.Expression.Range.From.Index || uf("srcText", attr.Expression.Range.From.Index, attr.Expression.Range.To.Index) == attr.Expression.Value
 
 // escapeQuotes: the body of strconv.Quote's result - Go-string-escaped text without raw line feeds
 //@ func escapeQuotes [C16]
